@@ -17,6 +17,7 @@ def run(ck, fb):
     r15l(ck, fb)
     r15m(ck, fb)
     r15o(ck, fb)
+    r15p(ck, fb)
     ck.borrow('rules.c12', {'R12q': 'R15n'}, 'a deregistration answered ok must reach the node that holds the instance, or the nodes return different instance sets until - and after - the next reconciliation')
     ck.borrow('rules.c14', {'R14g': 'R15j'}, 'a refused cluster message is a lost registry / view change: the nodes cannot converge on it')
 
@@ -596,3 +597,15 @@ def r15o(ck, fb, R='R15o'):
                    'a failed cluster sync request is retried after %d ms, the next batch for the same peer leaves after %d ms: the retried (older) batch '
                    'arrives after the newer one and is applied last - register + deregister of an HTTP instance leaves a copy on that peer for ever'
                    % (ms, period), '%d ms < %d ms' % (ms, period))
+
+
+def r15p(ck, fb, R='R15p'):
+    ck.rule(R, 'one instance cannot make a whole sync message unreadable: batches and snapshots between the nodes carry each instance as serde_json, '
+               'serde_json writes a non-finite float as null, and the receiver gives up on the WHOLE batch / snapshot when one item does not parse. '
+               'Every bare f32 / f64 field of a type reachable from SyncBatchForReceive / SnapshotForReceive is decoded by a decoder of its own '
+               '(the open api accepts weight=NaN): otherwise every other change of the same 500 ms batch, every 15 s heartbeat batch and every '
+               'snapshot of that owner is lost on all peers')
+    from rules.c02 import float_fields_decode_null
+    M = 'rnacos::naming::cluster::model::'
+    float_fields_decode_null(ck, fb, R, [M + 'SyncBatchForReceive', M + 'SnapshotForReceive'], 'cluster sync payload types', 3,
+                             'one instance registered with weight=NaN: the owner lists both instances of the batch, nodes 2 and 3 list nothing (3-node run)')
